@@ -756,6 +756,10 @@ fn elf_units(prop: &'static str, tier: Tier) -> Vec<Unit> {
                 Err(m) => Some(m),
             };
             if let Some(msg) = verdict {
+                if let Some(mm) = msg.strip_prefix("MACHINERY: ") {
+                    ctx.machinery(mm.to_string());
+                    return;
+                }
                 ctx.custom_violation("elf", msg, json!({"prop": prop, "spec": spec.to_json()}), json!(null), json!(null));
                 if ctx.stop {
                     return;
@@ -927,7 +931,7 @@ fn real_binary_unit() -> Unit {
             let bin = match repo_binary() {
                 Some(b) => b,
                 None => {
-                    ctx.custom_violation("elf", "MACHINERY: VERIF_REPO_BIN not set / repository binary not built".into(), json!({}), json!(null), json!(null));
+                    ctx.machinery("VERIF_REPO_BIN not set / repository binary not built".into());
                     return;
                 }
             };
@@ -951,7 +955,7 @@ fn real_binary_unit() -> Unit {
                     let a = &args[k];
                     let file = elf_with_code(&code, exit_off, ss, 0x20);
                     if std::fs::write(&path, &file).is_err() {
-                        ctx.custom_violation("elf", "MACHINERY: cannot write scratch ELF".into(), json!({}), json!(null), json!(null));
+                        ctx.machinery("cannot write scratch ELF".into());
                         return;
                     }
                     let out = std::process::Command::new("timeout")
@@ -984,7 +988,7 @@ fn real_binary_unit() -> Unit {
                                 );
                             }
                         }
-                        Err(e) => ctx.custom_violation("elf", format!("MACHINERY: cannot run the binary: {}", e), case, json!(null), json!(null)),
+                        Err(e) => ctx.machinery(format!("cannot run the binary: {}", e)),
                     }
                     if ctx.stop {
                         break;
